@@ -1880,6 +1880,13 @@ func (h *fsHandler) newCompressedFSFile(filePath, fileEncoding string) (*fsFile,
 func (h *fsHandler) openFSFile(filePath string, mustCompress bool, fileEncoding string) (*fsFile, error) {
 	filePathOriginal := filePath
 	if mustCompress {
+		// A directory has no compressed copy. Appending the suffix to it would
+		// name a sibling of the directory - for the root directory a path
+		// outside Root (e.g. /srv/www.fasthttp.gz), which must be neither
+		// served nor removed as stale.
+		if fi, err := fs.Stat(h.filesystem, filePathOriginal); err == nil && fi.IsDir() {
+			return nil, errDirIndexRequired
+		}
 		filePath += h.compressedFileSuffixes[fileEncoding]
 	}
 	f, err := h.filesystem.Open(filePath)
